@@ -65,6 +65,8 @@ CT = [CA, CB, CC, CD, CE]
 def generate(rng, tier):
     nm = rng.choice([1, 1, 2, 2, 3] + ([3, 4] if tier == "thorough" else []))
     worlds = [gen_world(rng, kinds=("plain", "plain", "space", "discrete", "line", "grid"), max_cells=24) for _ in range(nm)]
+    for w_ in worlds:
+        w_["attached"] = rng.random() < 0.85
     nag = [rng.randint(2, 8) for _ in range(nm)]
     touch = rng.random() < 0.15
     ops = []
